@@ -167,6 +167,12 @@ def checkGrp : P String := do
   let ko2 ← pList pCell
   if status == "ok" && ko2 != dump.order.map (·.1) then
     c04 := firstFail c04 "fail:keyorder-changed-by-editing-a-returned-aggregate"
+  -- the groups are still the partition that was dumped before the aggregations ran (same rows, same cells)
+  expect "G2"
+  if status == "ok" then
+    let dump2 ← pGrpDump
+    if dump2.ng != dump.ng || dump2.order != dump.order then
+      c04 := firstFail c04 "fail:groups-changed-by-aggregating"
   -- grouping again after an in-place edit sees the edit
   expect "REGROUP"
   let rg ← next
